@@ -376,6 +376,7 @@ in: the replica of the room it *is* in diverges.  The theorems are about the lis
 *set* of every store, at every moment, for every sequence of joins, leaves, room
 switches, session closes, sets, removes, room deletions and passages of time. -/
 
+
 /-- Where the source touches a room's store: one field, mentioned by methods of `Room` only (the store is
 not handed out); listeners are added in `Room.AddSession` and nowhere else in the package, removed in
 `Room.RemoveSession` (and at most, besides, in `Room.Close`); a session leaves its room through
@@ -423,30 +424,35 @@ theorem ListenersAreMembers_of_Inv {w : World} (h : Inv w) : ListenersAreMembers
   · rintro ⟨o, ho, hoid, hmem⟩
     rw [← hoid]; exact h.mem_room o ho s hmem
 
+/-- … and when the backend deletes a room, `Room.Close` unregisters the sessions it drops (every client
+path through the loop over `r.sessions` passes `RemoveListener`; repaired in /repo, finding
+`C14-room-delete-keeps-listeners` — before, `Close` emptied `r.sessions` and the `RemoveSession` that
+followed returned early). -/
+theorem C14_room_delete_unregisters : (Emb.current.closeUnreg || Emb.current.absentUnreg) = true := by decide
+
+theorem C14_embedding_sound : Emb.current.sound = true := by decide
+
 /-- **Listener set = member set**, for every source that registers on join, unregisters on every way of
 leaving *and* when the backend deletes the room: after every sequence of operations the listeners of every
 room object's store are exactly the sessions in that room object, a forgotten room object has no listeners
 at all, a session's room pointer is the one object that lists it, and no session is in two. -/
-theorem C14_listeners_are_members (c : Cfg) (e : Emb) (he : e.Ok)
+theorem C14_listeners_are_members_of_sound (c : Cfg) (e : Emb) (he : e.Ok)
     (hd : (e.closeUnreg || e.absentUnreg) = true) (ops : List ROp) :
     ListenersAreMembers (runW c e World.init ops) := by
   have := (Good_run c he ops (Or.inr hd) Inv_init (WConv_init (fun _ => []))).1
   rw [runWV_fst] at this
   exact ListenersAreMembers_of_Inv this
 
-/-- The current source: the same for every history in which the backend does not delete a room
-(missing: `Room.Close` drops the sessions without unregistering them, and the `RemoveSession` that
-follows returns early — open finding `C14-room-delete-keeps-listeners`, counter-example below). -/
-theorem C14_listeners_are_members_partial (ops : List ROp) (hdel : ∀ op ∈ ops, op.isDel = false) :
-    ListenersAreMembers (runW Cfg.current Emb.current World.init ops) := by
-  have := (Good_run Cfg.current C14_membership_paths_register ops (Or.inl hdel) Inv_init
-    (WConv_init (fun _ => []))).1
-  rw [runWV_fst] at this
-  exact ListenersAreMembers_of_Inv this
+/-- The current source, every history (joins, leaves, room switches, session closes, client and bus
+requests, room deletions by the backend, passages of time). -/
+theorem C14_listeners_are_members (ops : List ROp) :
+    ListenersAreMembers (runW Cfg.current Emb.current World.init ops) :=
+  C14_listeners_are_members_of_sound Cfg.current Emb.current C14_membership_paths_register
+    C14_room_delete_unregisters ops
 
 /-- **Every session's replica is the data of the room it is in** — emptied when it joins a room, then the
 snapshot (if one is sent) and every notification applied in order — after every sequence of operations. -/
-theorem C14_room_replica_converges (c : Cfg) (e : Emb) (he : e.Ok)
+theorem C14_room_replica_converges_of_sound (c : Cfg) (e : Emb) (he : e.Ok)
     (hd : (e.closeUnreg || e.absentUnreg) = true) (ops : List ROp) :
     let r := runWV c e World.init (fun _ => []) ops
     ∀ s i, r.1.roomOf s = some i → ∃ o ∈ r.1.objs, o.oid = i ∧ r.2 s = o.td.data := by
@@ -455,14 +461,20 @@ theorem C14_room_replica_converges (c : Cfg) (e : Emb) (he : e.Ok)
   obtain ⟨o, ho, hoid, hmem⟩ := hi.room_mem s i hr
   exact ⟨o, ho, hoid, hc o ho s hmem⟩
 
-theorem C14_room_replica_converges_partial (ops : List ROp) (hdel : ∀ op ∈ ops, op.isDel = false) :
+/-- The current source, every history. -/
+theorem C14_room_replica_converges (ops : List ROp) :
     let r := runWV Cfg.current Emb.current World.init (fun _ => []) ops
-    ∀ s i, r.1.roomOf s = some i → ∃ o ∈ r.1.objs, o.oid = i ∧ r.2 s = o.td.data := by
-  intro r s i hr
-  obtain ⟨hi, hc⟩ := Good_run Cfg.current C14_membership_paths_register ops (Or.inl hdel) Inv_init
-    (WConv_init (fun _ => []))
-  obtain ⟨o, ho, hoid, hmem⟩ := hi.room_mem s i hr
-  exact ⟨o, ho, hoid, hc o ho s hmem⟩
+    ∀ s i, r.1.roomOf s = some i → ∃ o ∈ r.1.objs, o.oid = i ∧ r.2 s = o.td.data :=
+  C14_room_replica_converges_of_sound Cfg.current Emb.current C14_membership_paths_register
+    C14_room_delete_unregisters ops
+
+/-- Without the unregistration on room deletion the statements still hold for histories in which the
+backend deletes no room (what could be said about the tree before the repair). -/
+theorem C14_listeners_are_members_without_delete (c : Cfg) (e : Emb) (he : e.Ok) (ops : List ROp)
+    (hdel : ∀ op ∈ ops, op.isDel = false) : ListenersAreMembers (runW c e World.init ops) := by
+  have := (Good_run c he ops (Or.inl hdel) Inv_init (WConv_init (fun _ => []))).1
+  rw [runWV_fst] at this
+  exact ListenersAreMembers_of_Inv this
 
 /-- Every room object's store — also of rooms closed meanwhile — is a run of store operations (API calls
 and quiescent passages of time) from the empty store, so §1–§3 hold for each of them; in particular its
@@ -489,6 +501,16 @@ example :
     r.2 0 = [("a", "y")] ∧ r.2 1 = [("b", "z")] ∧ r.1.roomOf 0 = some 2 ∧ r.1.roomOf 1 = some 1 := by
   decide
 
+/-- … and with the backend deleting the room while a ttl is pending: the deleted room object keeps its
+store and timer but no listener; the session, in the re-created room, hears nothing of the old expiry. -/
+example :
+    let ops : List ROp := [.join 0 1, .set 0 "a" (some "v") 20, .del 1, .join 0 1, .set 0 "a" (some "v") 0]
+    let w := runW Cfg.current Emb.current World.init ops
+    w.objs.map (fun o => (o.live, o.members, o.td.listeners)) = [(false, [], []), (true, [0], [0])] ∧
+    (stepR w (.adv 25)).out = [] ∧
+    (stepR w (.adv 25)).w.objs.map (fun o => (o.live, o.td.data)) = [(false, []), (true, [("a", "v")])] := by
+  decide
+
 /-- The hypothesis on the last-leave path is necessary (what the seeded change C14-4 does): if the last
 session to leave is not unregistered, the closed room's pending expiry reaches it in the room it is in
 now — it is told to remove a value that room still has. -/
@@ -502,10 +524,11 @@ theorem C14_last_leave_must_unregister :
     (stepW Cfg.repaired e w (.adv 25)).w.objs.map (fun o => (o.live, o.td.data)) =
       [(false, []), (true, [("a", "v")])] := by decide
 
-/-- Counter-example to the full statement on the source as found (replayed on the code:
-`corpus/C14/room-deleted-keeps-listener.jsonl`): the backend deletes the room while a ttl is pending; the
-session joins the room again (a new object) and sets the key without ttl; the old deadline passes: the
-deleted room's store still lists the session and tells it to remove the value. -/
+/-- The unrepaired shape (`Emb.asFound`: the tree before the repair of `Room.Close`; the history is
+`corpus/C14/room-deleted-keeps-listener.jsonl`, which showed exactly this on that tree): the backend deletes
+the room while a ttl is pending; the session joins the room again (a new object) and sets the key without
+ttl; the old deadline passes: the deleted room's store still lists the session and tells it to remove the
+value.  So the hypothesis on room deletion is necessary, too. -/
 theorem C14_room_delete_keeps_listener :
     let w := runW Cfg.repaired Emb.asFound World.init
       [.join 0 1, .set 0 "a" (some "v") 20, .del 1, .join 0 1, .set 0 "a" (some "v") 0]
